@@ -67,7 +67,8 @@ CLAIMS = {
              "bytes, files under blobs/) against the requirement and against the transcribed algorithm.",
         note="Streams are finite (<= 2/3 bytes quick/thorough, sizes -1..len+1); a reader that returns (0,nil) for ever "
              "is out of scope. The caching proxy (internal/cas.Proxy) is an internal package and is exercised only "
-             "through the copy family. A Push may accept or reject bytes beyond Size (only readers must report them).",
+             "through the copy family. A Push may accept or reject bytes beyond Size (only readers must report them). "
+             "Every store is also asked through the plain (untitled) descriptor; good and bad pushers of one digest / name race under a controlled scheduler (reads of the scripted readers and the library's verif points) in the memory, OCI and file stores.",
         ref="3 C05", technique="TLA+ requirement + transcribed algorithm model-checked with TLC; TLC-emitted cases replayed "
                               "into the code and judged by TLC"),
     "C06": dict(
@@ -100,7 +101,8 @@ CLAIMS = {
              "digest of its bytes, every named index entry points to an existing blob of the recorded size, named "
              "entries equal the model's tag map) and the layout is reopened three ways; every observation must equal "
              "the model state, hence the live store.",
-        note="With AutoSaveIndex off the driver calls SaveIndex before looking at the directory, as the property allows.",
+        note="With AutoSaveIndex off the driver calls SaveIndex before looking at the directory, as the property allows. "
+             "Concurrent tails (see C06) include a GC racing with Tag/Push; validity of the directory as an image layout is judged after them whatever the model state.",
         ref="3 C08", technique=TECH + " (StoreMon.tla Disk* / Reopen*)"),
     "C09": dict(
         text="DelSet and GCResult of StoreModel.tla are the required effects written from the property; MCStore.tla checks "
@@ -108,7 +110,8 @@ CLAIMS = {
              "tagged node, never touch another tag, are maximal, keep everything reachable and are idempotent; on the "
              "real OCI store every Delete (AutoGC on/off) and GC (also with stray blob files) must return ok, terminate "
              "(watchdog) and leave exactly the model's content, tags and predecessor relation.",
-        note="Fixed in /repo while building this check: F1 F2 F3 F5 F15 (see known_findings.json).",
+        note="Fixed in /repo while building this check: F1 F2 F3 F5 F15 (see known_findings.json). "
+             "A Delete or GC inside a concurrent tail is scheduled at the library's verif points (storage steps, GC sweep); ConcurrentSerializable is also owned by C09 then. Fixed in /repo: F18.",
         ref="3 C09", technique=TECH + " (MCStore.tla invariants; StoreMon.tla OpResult / Live* after delete and gc)"),
     "C10": dict(
         text="OciCrash.tla models every OCI-layout operation as the sequence of its file-system steps (OciSteps.tla) with a "
@@ -134,7 +137,8 @@ CLAIMS = {
              "sandbox and TarJudge.tla checks that nothing outside the working directory was created, changed, re-moded "
              "or deleted, that lexically escaping names were rejected, and that the real tree equals the model's.",
         note="Linux path semantics; TMPDIR is pointed inside the sandbox and excluded; timestamps and link counts are not "
-             "judged. Fixed in /repo while building this check: F7, F8, F16.",
+             "judged. Fixed in /repo while building this check: F7, F8, F16. "
+             "Also working directories that already hold a dangling / escaping symbolic link before anything is pushed, and every multi-entry sequence once more with one archive per entry. Fixed in /repo: F7, F8, F16, F19.",
         ref="3 C11", technique="TLA+ model of the file system and the extraction algorithm checked with TLC; TLC-enumerated "
                               "archives replayed into the code, outcome judged and compared with the model by TLC"),
     "C12": dict(
@@ -147,7 +151,8 @@ CLAIMS = {
              "compares the restored tree with the abstract source tree, the descriptor with the stored bytes, the two "
              "descriptors of reproducible tars, duplicate names, and requires a tampered uncompressed digest to fail.",
         note="tar/PAX/gzip byte-level encoding is exercised, not modelled; the specification sees the abstract tree. umask "
-             "022 is set by the driver; the check runs as root. IgnoreNoName and the remote intermediate are not covered yet.",
+             "022 is set by the driver; the check runs as root. IgnoreNoName and the remote intermediate are not covered yet. "
+             "Symbolic links carry their own mtimes (lutimes) in the reproducibility comparison; same-bytes files behind a legitimately absent (non-distributable) named layer.",
         ref="3 C12", technique="TLA+ expectation function; TLC-emitted cases replayed through the real pipeline, outcome judged by TLC"),
     "C13": dict(
         text="Registry.tla is the distribution specification as a server model (state per repository, the allowed request forms "
@@ -196,7 +201,8 @@ CLAIMS = {
              "request paths, and that pages, requests and outcome equal the model's run.",
         note="The OCI-layout Tags listing is a fourth API of the same case space (api ocitags: a sorted universe of names of "
              "which a subset are tags, last any name of the universe, tag or not; read-write store and the layout opened "
-             "read-only). The scripted server is itself validated against PagingModel (L2).",
+             "read-only). The scripted server is itself validated against PagingModel (L2). "
+             "Oversize cases and a quarter of the others are also served without a Content-Length.",
         ref="3 C15", technique="TLA+ model of client loop and server model-checked with TLC; TLC-emitted cases replayed into the "
                               "code, judged and compared with the model by TLC"),
     "C16": dict(
@@ -211,7 +217,8 @@ CLAIMS = {
              "inside Basic material, and where it goes), every call (send and fetch bounds, non-401 result), coalescing, the "
              "scope set of every attached token and CleanScopes against the canonical form.",
         note="Redirects performed by net/http below the auth client are not modelled. The single-context cache is documented to "
-             "ignore scopes; ReuseKey is instantiated with host only for it.",
+             "ignore scopes; ReuseKey is instantiated with host only for it. "
+             "Coalescing rounds may contain a request with a deadline whose credential lookup waits for it; resource names with colons in scope strings. Fixed in /repo: F20.",
         ref="3 C16", technique=TECH + " (AuthMon.tla; gate-level schedules of concurrent requests)"),
     "C17": dict(
         text="Retry.tla transcribes retry.Transport.RoundTrip (attempt loop, policy decision, rewind through GetBody, pause, "
@@ -222,7 +229,8 @@ CLAIMS = {
              "auth client is run over the retrying transport for Basic/Bearer challenge sequences, and GenericPolicy / "
              "ExponentialBackoff are evaluated over attempt, backoff, factor, jitter, Retry-After classes including 0 and "
              "extreme values; RetryJudge.tla checks every record against the clauses and against the model's prediction.",
-        note="The floating-point formula of ExponentialBackoff is observed and bounded, not specified. Fixed in /repo: F9.",
+        note="The floating-point formula of ExponentialBackoff is observed and bounded, not specified. Fixed in /repo: F9. "
+             "Bodies of unknown length (ContentLength 0 with a Body), replayable and one-shot, in the auth-over-retry runs.",
         ref="3 C17", technique="TLA+ state machine model-checked with TLC (safety + liveness); TLC-emitted cases replayed into "
                               "the code under a virtual clock, judged and compared with the model by TLC"),
     "C18": dict(
@@ -235,7 +243,8 @@ CLAIMS = {
              "the sequential orders, and judges the file found after a SIGKILL injected (strace) at every system call of "
              "Put and Delete.",
         note="Crash = process death. The abstract document compares JSON values canonically (key order and whitespace are "
-             "not significant). Concurrent rounds are un-gated (real parallelism).",
+             "not significant). Concurrent rounds are un-gated (real parallelism). "
+             "A Put whose save was made to fail and is retried on the same store; write faults (RLIMIT_FSIZE sweep) during a save.",
         ref="3 C18", technique=TECH + " (CredMon.tla incl. linearization search; strace kill injection)"),
     "C19": dict(
         text="Pack.tla states the four packers as a decision table over (version, artifactType class, config class, "
